@@ -260,6 +260,42 @@ theorem foldOk_model (ops : List Op) : ∀ (h : Header), noGhost h = true →
       rw [readsOk_model]
       simpa [modelReads] using ih1
 
+/-- what a successful fold says at the surface: one observation per operation, none of them a panic -/
+theorem foldOk_shape (ops : List Op) : ∀ (m : Map) (prev : Bool × UInt16) (steps : List StepObs) (mf : Map),
+    foldOk m prev ops steps = some mf → steps.length = ops.length ∧ ∀ s ∈ steps, s.res ≠ .panic := by
+  induction ops with
+  | nil =>
+    intro m prev steps mf h
+    cases steps with
+    | nil => simp
+    | cons s ss => simp [foldOk] at h
+  | cons op ops ih =>
+    intro m prev steps mf h
+    cases steps with
+    | nil => simp [foldOk] at h
+    | cons s ss =>
+      simp only [foldOk] at h
+      cases hr : s.res with
+      | panic => simp [hr] at h
+      | ok u =>
+        simp only [hr] at h
+        split at h
+        · obtain ⟨h1, h2⟩ := ih _ _ ss mf h
+          refine ⟨by simp [h1], fun t ht => ?_⟩
+          rcases List.mem_cons.mp ht with rfl | ht
+          · simp [hr]
+          · exact h2 t ht
+        · simp at h
+      | err e =>
+        simp only [hr] at h
+        split at h
+        · obtain ⟨h1, h2⟩ := ih _ _ ss mf h
+          refine ⟨by simp [h1], fun t ht => ?_⟩
+          rcases List.mem_cons.mp ht with rfl | ht
+          · simp [hr]
+          · exact h2 t ht
+        · simp at h
+
 /-- the trace the model produces: per operation accepted?, ids, and GetExtension for every listed
     id and the operation's id (nil and empty distinguished) -/
 def modelTrace (h : Header) : List Op → List (Bool × List UInt8 × List (UInt8 × Option Bytes))
